@@ -38,8 +38,8 @@ type prop struct {
 }
 
 func (p *prop) Rule() string {
-	return "rt: generated set-field contents (0-8 bits; row/column keys on or off independently; keys of 0-4 code points over " +
-		"{a b , \" space tab LF CR \\ . 0 e-acute snowman NBSP U+3000} so quoting, leading space, `\\.`, Unicode, CR LF and empty keys occur; " +
+	return "rt: generated set-field contents (0-8 bits; row/column keys on or off independently; keys drawn around every character that is special for some encoding/csv setting or CSV dialect " +
+		"({, ; tab # \" ' \\ space CR LF BOM . - = | %} at the start, end or inside a key, `\\.`, number-, negative-number- and timestamp-like keys, empty keys, keys of 300-4097 code points, Unicode); " +
 		"unkeyed columns at shard edges of shards 0-3, another field raising the index's max shard; BufferSize 0-4 or 1000) exported by " +
 		"ctl.ExportCommand and imported by ctl.ImportCommand into an empty field of the same type; non-trivial = at least one bit. " +
 		"csvw/csvr/csvrt: records / arbitrary text over the CSV-significant alphabet through encoding/csv; non-trivial = contains a quote, comma, CR or LF. " +
@@ -142,20 +142,61 @@ func encPairs(ps [][2]string) string {
 
 // ---------- generation ----------
 
-var keyAlphabet = []rune{'a', 'b', ',', '"', ' ', '\t', '\n', '\r', '\\', '.', '0', 0xE9, 0x2603, 0xA0, 0x3000}
+// keyAlphabet covers every character that is special for SOME setting of encoding/csv's reader or
+// writer (Comma ',' or ';' or tab, Comment '#', quote, CR, LF, leading space for TrimLeadingSpace and
+// the writer's quoting rule, `\.`), for shells and other CSV dialects (backslash, single quote, BOM),
+// plus plain and non-ASCII characters - not only the ones the current settings react to.
+var keyAlphabet = []rune{'a', 'b', ',', '"', ' ', '\t', '\n', '\r', '\\', '.', '0', 0xE9, 0x2603, 0xA0, 0x3000,
+	'#', ';', '\'', 0xFEFF, '-', '=', '|', '%', '1'}
+
+// keyShapes: keys whose special character sits at the start, at the end or inside, keys that look like
+// numbers, negative numbers, timestamps (the optional third CSV column!), and the writer's `\.` case.
+var keyShapes = []string{`\.`, " a", "a ", " a ", " ", "  ", "\"", "\"\"", "\"a", "a\"", ",", ",a", "a,", "a,b", "\r", "\n", "a\r", "\n\r",
+	"#", "#a", "a#", "a#b", "# a", "##", ";", ";a", "a;", "a;b", "\t", "\ta", "a\t", "a\tb", "\\", "\\a", "a\\", "\\n", "'", "'a'", "a'b",
+	"\ufeff", "\ufeffa", "a\ufeff", "123", "-5", "007", "+1", "1e3", "0x10", "1_0", "18446744073709551616", "2019-01-01T00:00", "2019-01-01T00:00:00Z",
+	"　", "\u00a0a", "=1+1", "%s", "a|b", "NULL", "true"}
 
 func genKey(r *vh.Rng) string {
-	switch r.Intn(20) {
+	switch r.Intn(24) {
 	case 0:
 		vh.Count("key:empty")
 		return ""
 	case 1:
 		vh.Count("key:crlf")
 		return r.PickS("\r\n", "a\r\nb", "\r\n\r\n", "x\r\n")
-	case 2:
-		return r.PickS(`\.`, " a", "a ", "\"", "\"\"", ",", "\r", "\n", "a\r", "\n\r", " a", "　")
-	case 3, 4, 5, 6:
+	case 2, 3, 4, 5:
+		k := keyShapes[r.Intn(len(keyShapes))]
+		if strings.HasPrefix(k, "#") {
+			vh.Count("key:leading-hash")
+		}
+		return k
+	case 6:
+		// very long key with a special character somewhere
+		vh.Count("key:long")
+		n := r.Pick(300, 600, 4097)
+		rs := make([]rune, n)
+		for i := range rs {
+			rs[i] = 'k'
+		}
+		rs[r.Intn(n)] = keyAlphabet[r.Intn(len(keyAlphabet))]
+		if rs[0] == '\r' && n > 1 && rs[1] == '\n' {
+			rs[0] = 'k'
+		}
+		s := string(rs)
+		if strings.Contains(s, "\r\n") {
+			vh.Count("key:crlf")
+		}
+		return s
+	case 7, 8, 9, 10:
 		return r.PickS("a", "b", "c", "k1", "k2")
+	case 11, 12, 13:
+		// one special character at the start, at the end or in the middle of a plain key
+		c := string(keyAlphabet[r.Intn(len(keyAlphabet))])
+		k := r.PickS(c+"a", "a"+c, "a"+c+"b", c)
+		if strings.HasPrefix(k, "#") {
+			vh.Count("key:leading-hash")
+		}
+		return k
 	}
 	n := r.Range(1, 4)
 	rs := make([]rune, n)
@@ -166,11 +207,14 @@ func genKey(r *vh.Rng) string {
 	if strings.Contains(s, "\r\n") {
 		vh.Count("key:crlf")
 	}
+	if strings.HasPrefix(s, "#") {
+		vh.Count("key:leading-hash")
+	}
 	return s
 }
 
 func genText(r *vh.Rng, n int) string {
-	alpha := []rune{'a', 'b', ',', ',', '"', '"', '\n', '\n', '\r', ' ', 0xE9, '1'}
+	alpha := []rune{'a', 'b', ',', ',', '"', '"', '\n', '\n', '\r', ' ', 0xE9, '1', '#', '#', ';', '\t', '\'', '\\'}
 	rs := make([]rune, n)
 	for i := range rs {
 		rs[i] = alpha[r.Intn(len(alpha))]
@@ -224,7 +268,7 @@ func (p *prop) genRT(r *vh.Rng) (string, bool) {
 func (p *prop) genImp(r *vh.Rng) (string, bool) {
 	rk, ck := r.Chance(4, 10), r.Chance(4, 10)
 	atomsNum := []string{"0", "1", "2", "7", "007", "1048576", "2097153", "", "x", "-1", "+1", "4294967296", "18446744073709551616", "1_0", " 1", "99999999999999999999999"}
-	atomsKey := []string{"a", "b", "", "a,b", "q\"q", " x", "é", "n\nl", "c\r\nd", "5"}
+	atomsKey := []string{"a", "b", "", "a,b", "q\"q", " x", "é", "n\nl", "c\r\nd", "5", "#x", "x#", "#", ";", "a;b", "\tq", "'s'", "\ufeffb", "-5", "b\\"}
 	nrec := r.Range(0, 5)
 	var recs [][]string
 	for i := 0; i < nrec; i++ {
@@ -261,10 +305,10 @@ func (p *prop) genImp(r *vh.Rng) (string, bool) {
 	case 2:
 		if len(text) > 0 {
 			i := r.Intn(len(text))
-			text = text[:i] + r.PickS("\"", ",", "\n", "\r", "\n\n") + text[i:]
+			text = text[:i] + r.PickS("\"", ",", "\n", "\r", "\n\n", "#", "\n#", ";", " ") + text[i:]
 		}
 	case 3:
-		text = text + r.PickS("\r", "\n\n", "1,", "\"1", "1,2")
+		text = text + r.PickS("\r", "\n\n", "1,", "\"1", "1,2", "#c\n", "#")
 	}
 	// keep valid UTF-8 (insertions may split a multi-byte rune)
 	text = strings.ToValidUTF8(text, "?")
